@@ -262,7 +262,7 @@ Section Enum.
   Proof.
     intros cwd uri pre cs H. unfold uri_cands in H. unfold reachable, start_path.
     set (sp := normpath (fst (strip_scheme_prefix uri))) in *.
-    destruct (excl sp) eqn:E.
+    destruct (excl_start excl sp) eqn:E.
     - inversion H; subst. split; [reflexivity|]. intros f c. split; [intros [] | intros [A _]; discriminate].
     - destruct (stat_path root fuel cwd sp) as [c0|loc| | |] eqn:S; try discriminate.
       + inversion H; subst. split; [reflexivity|]. intros f c. simpl. split.
